@@ -366,7 +366,7 @@ class Check:
     """One run of one property's check.  Collects coverage, violations and proof obligations, prints the protocol
     lines and writes the evidence file."""
 
-    def __init__(self, prop, tier, seed=None, level="proof"):
+    def __init__(self, prop, tier, seed=None, level="proof", keep_evidence=False):
         self.prop = prop
         self.tier = tier
         self.seed = int(seed if seed is not None else os.environ.get("VERIF_SEED", "1"))
@@ -380,10 +380,12 @@ class Check:
         self.notes = []
         self.theorems = {}
         os.makedirs(EVID, exist_ok=True)
-        try:
-            os.remove(os.path.join(EVID, prop + ".json"))
-        except OSError:
-            pass
+        self.keep_evidence = keep_evidence
+        if not keep_evidence:
+            try:
+                os.remove(os.path.join(EVID, prop + ".json"))
+            except OSError:
+                pass
 
     # -- proofs ------------------------------------------------------------------------------------
     def prove(self, module_rel, extra_targets=()):
@@ -481,8 +483,9 @@ class Check:
         self.cov["notes"] = self.notes
         if extra:
             self.cov.update(extra)
-        with open(os.path.join(EVID, self.prop + ".json"), "w") as f:
-            json.dump(ev, f, indent=1, sort_keys=True, default=str)
+        if not self.keep_evidence:
+            with open(os.path.join(EVID, self.prop + ".json"), "w") as f:
+                json.dump(ev, f, indent=1, sort_keys=True, default=str)
         sys.stdout.flush()
         return 1 if seen else 0
 
